@@ -146,6 +146,20 @@ CLAIMED["C13"] = dict(
     tech=IRSX + "concolic path discovery + structural op-DAG identity / exact normal form against the public cspline_eval_gs; exact rational arithmetic on the basis constants",
     ref="4 C13")
 
+CLAIMED["C08"] = dict(
+    text="diff::dr is executed with an UNINTERPRETED callable (every evaluation of f is an operation node and a recorded event): K = 0 returns f(x); Analytic, and Default "
+         "when the callable provides them, return the callable's own jacobian/hessian verbatim; Numerical: every Jacobian column is, exactly in real arithmetic, the forward "
+         "difference quotient (f(x (+) h e_c) - f(x))/h at a recorded evaluation point that differs from x in coordinate c only (right perturbation for Lie-group arguments), "
+         "with h inside the window [1e-10, 1e-5] for every admissible coordinate; every Hessian entry is the second difference in the documented stacked layout with steps in "
+         "[4e-7, 2.5e-3]; index subsets return the corresponding columns; non-const arguments are restored (real arithmetic). With the Taylor lemma (A5) the windows give "
+         "the 1e-4 / 5e-2 accuracies for O(1) f. Found and repaired: dr<2> returned its first derivative with the coarse second-order step (4e-4 relative error). "
+         "Floating-point accuracy and the 1e-15 restoration bound: bounded native stand-in only.",
+    note="A1; A5 Taylor lemma with O(1) derivative bounds; A6 (std::tuple/apply/lambdas executed; uninterpreted functions as atoms per canonical argument tuple); A7 argument "
+         "combinations (Vector3 | Vector2,double | SO3,Vector3 | Vector2,double,Vector3 | VectorXd,Vector2), vector-valued results; zero/non-zero coordinate patterns "
+         "discovered concolically; Autodiff/Ceres back ends not configured; observation O1 (unqualified abs) in DESIGN.md.",
+    tech=IRSX + "uninterpreted-function atoms + exact normal form (difference-quotient contracts), ground step-window checks; bounded native stand-in for rounding",
+    ref="4 C08")
+
 NOT_YET = {}
 
 
